@@ -4,7 +4,7 @@ from __future__ import annotations
 
 import ast
 
-from tiv.astutil import body_walk, call_name, dotted, enclosing_stmt, flatten_boolop, guards, kw, norm, short, stores_in, walk_local, with_context
+from tiv.astutil import conds, body_walk, call_name, dotted, enclosing_stmt, flatten_boolop, guards, kw, norm, short, stores_in, walk_local, with_context
 from tiv.match import b2s, find_exprs, find_stmts, match_expr, match_stmt
 from tiv.affine import NotPoly, equal, parse
 from tiv.mutate import M
@@ -212,7 +212,7 @@ def run(ck, m):
     cf = [st for t, st in stores_in(ast.Module(body=cp.body, type_ignores=[])) if norm(t) == "self._compressed"]
     ck.expect(len(pl) == 1 and len(of) == 1 and len(cf) == 1, "Transmission.compress: payload / control.o / _compressed stores not recognised")
     if len(pl) == 1 and len(of) == 1 and len(cf) == 1:
-        gsets = [frozenset(c for t, b in guards(x) for c in ([norm(v) for v in flatten_boolop(t, ast.And)] if b else ["not (" + norm(t) + ")"])) for x in (pl[0], of[0], cf[0])]
+        gsets = [frozenset(conds(x)) for x in (pl[0], of[0], cf[0])]
         ck.ob("R6", pl[0], gsets[0] == gsets[1] == gsets[2], f"payload compression, control.o = ZLIB and _compressed = True must happen under the same condition; found {[sorted(g) for g in gsets]}", stmt="compress: one guard for payload, o and _compressed")
         allowed = {"self.control.t == t.DIRECT", "not self._compressed", "self.level"}
         extra = set(gsets[1]) - allowed
